@@ -24,6 +24,28 @@ def emit(work, stats, simulate=None, extra=None):
     return graphs
 
 
+def placements(work, stats):
+    """every way of putting the three classes and the module into the top level or one of two namespaces (TLC: MCPlacements)"""
+    out = []
+    r = C.run_tlc(work, "MCPlacements", "Placements.cfg", workers=1, timeout=600,
+                  stream=lambda l: out.append(json.loads(json.loads(l))))
+    if not r.ok:
+        raise C.HarnessError("Placements model failed: %s" % r.violation)
+    stats["states"] += r.distinct
+    stats["transitions"] += r.generated
+    return out
+
+
+def crosses(gr, place):
+    """does some superclass / include / extend edge of the graph cross namespaces under this placement?"""
+    g = gr["g"]
+    for c in gr["shape"]:
+        for y in [g["sup"][c]] + g["inc"][c] + g["ext"][c]:
+            if y and place.get(y, "") != place.get(c, ""):
+                return True
+    return False
+
+
 def graph_key(gr):
     return json.dumps(gr["g"], sort_keys=True) + json.dumps(gr["shape"])
 
@@ -34,6 +56,8 @@ def def_lines(d, ind, style="normal"):
     name = d["name"]
     if d["static"] and d["how"] == "sclass":
         inner = def_lines(dict(d, static=False), ind + "  ", style)
+        if d["vis"] != "public":
+            inner = [ind + "  " + d["vis"]] + inner      # the section opened inside the block ends with the block
         return [ind + "class << self"] + inner + [ind + "end"]
     head = "def self.%s" % name if d["static"] else "def %s" % name
     if style == "endless":
@@ -43,9 +67,30 @@ def def_lines(d, ind, style="normal"):
     return [ind + head, ind + "  " + body, ind + "end"]
 
 
-def render(gr, names=PLAIN, wrap=None, qualify=None, style="normal"):
+def sclass_private(d):
+    return d["static"] and d["how"] == "sclass" and d["vis"] != "public"
+
+
+def path_of(x, names, place):
+    ns = (place or {}).get(x, "")
+    return (ns + "::" if ns else "") + names.get(x, x)
+
+
+def ref_from(x, y, names, place):
+    """how entity x (a class or module body) names entity y"""
+    if not place:
+        return names.get(y, y)
+    nx, ny = place.get(x, ""), place.get(y, "")
+    if ny == nx or ny == "":
+        return names.get(y, y)
+    return ny + "::" + names.get(y, y)
+
+
+def render(gr, names=PLAIN, wrap=None, qualify=None, style="normal", place=None):
     """-> (lines, info) where info = {"def_rows": {(owner, name, static): row}, "class_rows": ...}
-    wrap: list of module names the whole group is wrapped in."""
+    wrap: list of module names the whole group is wrapped in.
+    place: {entity: namespace} - every class / module is written inside `module <namespace>` (its own block,
+    so the namespace is reopened per entity); references across namespaces are qualified."""
     g = gr["g"]
     nm = lambda x: names.get(x, x)  # noqa: E731
     lines = []
@@ -54,47 +99,67 @@ def render(gr, names=PLAIN, wrap=None, qualify=None, style="normal"):
     for w in (wrap or []):
         lines.append(ind0 + "module %s" % w)
         ind0 += "  "
+
+    def open_ns(x):
+        ns = (place or {}).get(x, "")
+        if ns:
+            lines.append(ind0 + "module %s" % ns)
+            return ind0 + "  ", True
+        return ind0, False
+
+    def close_ns(opened):
+        if opened:
+            lines.append(ind0 + "end")
+
     used_mods = sorted({m for c in gr["shape"] for m in g["inc"][c] + g["ext"][c]})
     for m in used_mods:
-        lines.append(ind0 + "module %s" % nm(m))
-        for d in [d for d in g["defs"] if d["owner"] == m]:
-            def_rows[(m, d["name"], d["static"])] = len(lines) + 1
-            lines += def_lines(d, ind0 + "  ", style)
-        lines.append(ind0 + "end")
+        ind1, opened = open_ns(m)
+        lines.append(ind1 + "module %s" % nm(m))
+        for d in sorted([d for d in g["defs"] if d["owner"] == m], key=lambda d: not sclass_private(d)):
+            def_rows[(m, d["name"], d["static"])] = len(lines) + (3 if sclass_private(d) else 1)
+            lines += def_lines(d, ind1 + "  ", style)
+        lines.append(ind1 + "end")
+        close_ns(opened)
     for c in gr["shape"]:
         sup = g["sup"][c]
-        lines.append(ind0 + ("class %s < %s" % (nm(c), nm(sup)) if sup else "class %s" % nm(c)))
-        ind = ind0 + "  "
+        ind1, opened = open_ns(c)
+        lines.append(ind1 + ("class %s < %s" % (nm(c), ref_from(c, sup, names, place)) if sup else "class %s" % nm(c)))
+        ind = ind1 + "  "
         for m in g["inc"][c]:
-            lines.append(ind + "include %s" % nm(m))
+            lines.append(ind + "include %s" % ref_from(c, m, names, place))
         for m in g["ext"][c]:
-            lines.append(ind + "extend %s" % nm(m))
+            lines.append(ind + "extend %s" % ref_from(c, m, names, place))
         ar = g["init"][c]
         if ar >= 0:
             lines += [ind + ("def initialize(a)" if ar == 1 else "def initialize"), ind + ("  @v = a" if ar == 1 else "  @v = 1"), ind + "end"]
         own = [d for d in g["defs"] if d["owner"] == c and not d["reopened"]]
         # public definitions first, then one visibility section per non-public one
-        for d in sorted(own, key=lambda d: (d["vis"] != "public", d["name"])):
-            if d["vis"] != "public":
+        # a `class << self` block with its own private section first, then public definitions, then one visibility
+        # section per non-public one
+        for d in sorted(own, key=lambda d: (not sclass_private(d), d["vis"] != "public", d["name"])):
+            if d["vis"] != "public" and not sclass_private(d):
                 lines.append(ind + d["vis"])
-            def_rows[(c, d["name"], d["static"])] = len(lines) + (2 if d["static"] and d["how"] == "sclass" else 1)
+            def_rows[(c, d["name"], d["static"])] = len(lines) + (3 if sclass_private(d) else 2 if d["static"] and d["how"] == "sclass" else 1)
             lines += def_lines(d, ind, style)
-        lines.append(ind0 + "end")
+        lines.append(ind1 + "end")
+        close_ns(opened)
     for d in [d for d in g["defs"] if d["reopened"]]:
-        lines.append(ind0 + "class %s" % nm(d["owner"]))
+        ind1, opened = open_ns(d["owner"])
+        lines.append(ind1 + "class %s" % nm(d["owner"]))
         def_rows[(d["owner"], d["name"], d["static"])] = len(lines) + 1
-        lines += def_lines(d, ind0 + "  ", style)
-        lines.append(ind0 + "end")
+        lines += def_lines(d, ind1 + "  ", style)
+        lines.append(ind1 + "end")
+        close_ns(opened)
     for w in reversed(wrap or []):
         ind0 = ind0[:-2]
         lines.append(ind0 + "end")
     return lines, {"def_rows": def_rows}
 
 
-def query_lines(gr, names=PLAIN, prefix=""):
+def query_lines(gr, names=PLAIN, prefix="", place=None):
     """-> (lines, expectations[(line idx, kind, class, name, expected outcome dict)])"""
     g, q = gr["g"], gr["q"]
-    nm = lambda x: prefix + names.get(x, x)  # noqa: E731
+    nm = lambda x: prefix + path_of(x, names, place)  # noqa: E731
     lines, exp = [], []
     for c in gr["shape"]:
         ar = q[c]["arity"]
